@@ -92,6 +92,46 @@ func manyDocsWorld(n int) *gen.World {
 	return w
 }
 
+const c18IDWorlds = 24
+
+// c18IDWorld: an external document with a schema that carries an id and, beneath it, a fragment-only $ref; a namesake of the referenced
+// definition exists in the document, in the id-scoped schema and at the id's own location. Which of them the library picks is not this
+// check's business - that it picks the same one whatever the cache holds is.
+func c18IDWorld(k int) *gen.World {
+	const extURL = "file:///w/a/s/x.json"
+	id := []string{"http://ids.example/c18/x.json", "idfile.json", "#frag", "http://ids.example/c18/dir/"}[k%4]
+	holder := map[string]interface{}{"$ref": "#/definitions/leaf"}
+	scoped := map[string]interface{}{"id": id, "title": "schema with id", "definitions": map[string]interface{}{"leaf": map[string]interface{}{"title": "leaf of the id-scoped schema", "type": "string"}}}
+	switch (k / 4) % 3 {
+	case 0:
+		scoped["properties"] = map[string]interface{}{"p": holder}
+	case 1:
+		scoped["items"] = holder
+	default:
+		scoped["allOf"] = []interface{}{holder}
+	}
+	var withid interface{} = scoped
+	if (k/12)%2 == 1 {
+		withid = map[string]interface{}{"title": "outer", "properties": map[string]interface{}{"inner": scoped}}
+	}
+	decoy := func(t string) interface{} {
+		return map[string]interface{}{"definitions": map[string]interface{}{"leaf": map[string]interface{}{"title": "leaf of " + t, "type": "boolean"}}}
+	}
+	w := &gen.World{Root: gen.RootURL, Features: map[string]int{"id-scoped-world": 1}, Slots: 3, Docs: map[string]interface{}{
+		extURL:                              map[string]interface{}{"definitions": map[string]interface{}{"leaf": map[string]interface{}{"title": "leaf of the document", "type": "integer"}, "withid": withid}},
+		"http://ids.example/c18/x.json":     decoy("the document at the id"),
+		"http://ids.example/c18/dir/x.json": decoy("the document below the id directory"),
+		"file:///w/a/s/idfile.json":         decoy("idfile.json next to the document"),
+		"file:///w/a/idfile.json":           decoy("idfile.json next to the root"),
+		gen.RootURL: map[string]interface{}{"swagger": "2.0", "info": map[string]interface{}{"title": "t", "version": "1"}, "paths": map[string]interface{}{},
+			"definitions": map[string]interface{}{
+				"entry":  map[string]interface{}{"$ref": "s/x.json#/definitions/withid"},
+				"direct": map[string]interface{}{"title": "direct", "properties": map[string]interface{}{"l": map[string]interface{}{"$ref": "s/x.json#/definitions/leaf"}}},
+			}},
+	}}
+	return w
+}
+
 func c18Run(env *core.Env, idx int) core.CaseResult {
 	var res core.CaseResult
 	rng := core.Rng(env.Seed, "C18", idx)
@@ -123,9 +163,16 @@ func c18Run(env *core.Env, idx int) core.CaseResult {
 		res.Sample = map[string]interface{}{"documents": len(w.Docs)}
 		return res
 	}
+	var w *gen.World
+	if idx < 3+c18IDWorlds {
+		w = c18IDWorld(idx - 3)
+		res.Count("id-scoped-world", 1)
+	}
 	o := gen.WorldOpts{NDocs: 2 + rng.Intn(4), Cyclic: rng.Intn(2) == 0, Nested: rng.Intn(2) == 0, Chains: rng.Intn(3) == 0, HTTP: rng.Intn(3) == 0,
 		Elements: 2 + rng.Intn(2), MaxDepth: 1 + rng.Intn(2), RefDensity: []float64{0.5, 0.7}[rng.Intn(2)]}
-	w := gen.GenWorld(rng, o)
+	if w == nil {
+		w = gen.GenWorld(rng, o)
+	}
 	in := oworld(w)
 	res.Hash = core.HashOf(w.Docs)
 	var ext []string
@@ -234,7 +281,8 @@ func c18Run(env *core.Env, idx int) core.CaseResult {
 			if rc != nil {
 				res.Count("cache-sets-observed", len(rc.sets))
 				for _, k := range rc.sets {
-					if why := canonicalRequest(k); why != "" {
+					if why := canonicalRequest(k); why != "" && !(why == "fragment present" && w.Features["id-scoped-world"] > 0) {
+						// (an id such as "#frag" names a pseudo document whose key is the base with that fragment)
 						res.Violate("cache-key-not-canonical ("+why+")", fmt.Sprintf("Set(%q)", k), wit(extra))
 						break
 					}
@@ -330,9 +378,139 @@ func c18Run(env *core.Env, idx int) core.CaseResult {
 			}
 		}
 	}
+	c18WithRoot(env, idx, &res)
 	res.NonTrivial = len(ext) >= 2 && twoPlaces > 0
 	res.Sample = map[string]interface{}{"documents": len(w.Docs), "definitions": len(defs), "external_documents": len(ext)}
 	return res
+}
+
+// c18WithRoot: the entry points that take an in-memory root and a cache (ExpandSchema, ExpandParameterWithRoot, ExpandResponseWithRoot).
+// The root has no location of its own, so it refers to the other documents by absolute URL; documents are served by the package-level loader.
+func c18WithRoot(env *core.Env, idx int, res *core.CaseResult) {
+	rng := core.Rng(env.Seed, "C18/with-root", idx)
+	w := gen.GenWorld(rng, gen.WorldOpts{NDocs: 2 + rng.Intn(3), AbsOnly: true, Cyclic: rng.Intn(3) == 0, Nested: rng.Intn(2) == 0, Elements: 2, MaxDepth: 1 + rng.Intn(2), RefDensity: 0.6})
+	in := oworld(w)
+	rootText, _ := json.Marshal(w.Docs[w.Root])
+	rootJ, _ := in.Docs[w.Root].(map[string]interface{})
+	var ext []string
+	for u := range w.Docs {
+		if u != w.Root {
+			ext = append(ext, u)
+		}
+	}
+	sort.Strings(ext)
+	type run struct {
+		out      []byte
+		err      error
+		pan      string
+		requests []string
+	}
+	for _, section := range []string{"definitions", "parameters", "responses"} {
+		sec, _ := rootJ[section].(map[string]interface{})
+		var names []string
+		for k := range sec {
+			names = append(names, k)
+		}
+		sort.Strings(names)
+		entry := map[string]string{"definitions": "ExpandSchema", "parameters": "ExpandParameterWithRoot", "responses": "ExpandResponseWithRoot"}[section]
+		for _, n := range names {
+			local := "#/" + section + "/" + gen.FragmentEscape(n)
+			kind := map[string]string{"definitions": "schema", "parameters": "parameter", "responses": "response"}[section]
+			st := oracle.State{Doc: w.Root, Ptr: oracle.TokensToPointer([]string{section, n})}
+			acyc := in.Acyclic([]oracle.Child{{St: st, Kind: kind}})
+			typed := rng.Intn(2) == 0
+			do := func(cache spec.ResolutionCache) run {
+				var r run
+				ld := newLoader(w)
+				saved := spec.PathLoader
+				spec.PathLoader = ld.load
+				defer func() { spec.PathLoader = saved }()
+				var root interface{}
+				if typed {
+					sw := new(spec.Swagger)
+					_ = json.Unmarshal(rootText, sw)
+					root = sw
+				} else {
+					_ = json.Unmarshal(rootText, &root)
+				}
+				var v interface{}
+				r.err, r.pan = guard(func() error {
+					switch section {
+					case "definitions":
+						x := spec.RefSchema(local)
+						v = x
+						return spec.ExpandSchema(x, root, cache)
+					case "parameters":
+						x := spec.ParamRef(local)
+						v = x
+						return spec.ExpandParameterWithRoot(x, root, cache)
+					}
+					x := spec.ResponseRef(local)
+					v = x
+					return spec.ExpandResponseWithRoot(x, root, cache)
+				})
+				r.requests = ld.requests
+				if r.err == nil && r.pan == "" {
+					r.out, _ = json.Marshal(v)
+				}
+				return r
+			}
+			ref := do(nil)
+			res.Evals++
+			if ref.err != nil || ref.pan != "" {
+				res.Count("reference-run-failed", 1)
+				continue
+			}
+			wit := func(cacheState string, got run) map[string]interface{} {
+				return map[string]interface{}{"entry": entry, "root_in_memory": json.RawMessage(rootText), "typed_root": typed, "documents": w.Docs, "element": local, "cache": cacheState,
+					"requests": got.requests, "requests_without_cache": ref.requests}
+			}
+			check := func(cacheState string, got run, mustNotRequest map[string]bool) {
+				res.Evals++
+				res.Count("with-root."+entry, 1)
+				switch {
+				case got.pan != "":
+					res.Violate("panic "+entry+" ("+cacheState+")", got.pan, wit(cacheState, got))
+					return
+				case got.err != nil:
+					res.Violate("cache-changes-outcome "+entry+" ("+cacheState+"): "+errClass(got.err), got.err.Error(), wit(cacheState, got))
+					return
+				case acyc && !bytes.Equal(ref.out, got.out):
+					res.Violate("cache-changes-result "+entry+" ("+cacheState+")", fmt.Sprintf("%s instead of %s", core.Abbrev(string(got.out), 200), core.Abbrev(string(ref.out), 200)), wit(cacheState, got))
+				}
+				if d := dupOf(got.requests); d != "" {
+					res.Violate("document-requested-twice "+entry+" ("+cacheState+")", fmt.Sprintf("%s requested twice: %v", d, got.requests), wit(cacheState, got))
+				}
+				for _, q := range got.requests {
+					if mustNotRequest[q] {
+						res.Violate("cached-document-requested "+entry+" ("+cacheState+")", fmt.Sprintf("%s is in the supplied cache and was requested from the loader", q), wit(cacheState, got))
+						break
+					}
+				}
+			}
+			check("fresh cache", do(spec.VerifNewDefaultCache()), nil)
+			pre := spec.VerifNewDefaultCache()
+			preSet := map[string]bool{}
+			for _, u := range ext {
+				var g interface{}
+				b, _ := json.Marshal(w.Docs[u])
+				_ = json.Unmarshal(b, &g)
+				pre.Set(u, g)
+				preSet[u] = true
+			}
+			check("all documents pre-loaded", do(pre), preSet)
+			reused := spec.VerifNewDefaultCache()
+			first := do(reused)
+			loaded := map[string]bool{}
+			for _, q := range first.requests {
+				loaded[q] = true
+			}
+			check("reused from an earlier expansion of the same element", do(reused), loaded)
+			if len(ref.requests) > 0 {
+				res.Count("with-root.external-documents-needed", 1)
+			}
+		}
+	}
 }
 
 func init() {
@@ -340,13 +518,15 @@ func init() {
 		ID:    "C18",
 		Level: "exploration",
 		Rule: "multi-document worlds; every definition of the root expanded through ExpandSchemaWithBasePath with: no cache (reference), a fresh cache (the library's own and a recording wrapper), every subset of the external documents pre-loaded (all 2^k, k<=4), " +
-			"one cache reused over sequences of 2-6 element expansions, and a cache that has lived through a loader fault; plus ExpandSpec. monitors over the loader and cache event logs: result equals the no-cache result (bytes if acyclic, O-DEN otherwise), " +
+			"one cache reused over sequences of 2-6 element expansions, and a cache that has lived through a loader fault; plus ExpandSpec; plus ExpandSchema/ExpandParameterWithRoot/ExpandResponseWithRoot " +
+			"with an in-memory root (typed or generic) that refers to the other documents by absolute URL, with no cache, a fresh one, all documents pre-loaded, and one reused. monitors over the loader and cache event logs: result equals the no-cache result (bytes if acyclic, O-DEN otherwise), " +
 			"no URL requested twice within one expansion, no pre-loaded or previously loaded URL requested, cache keys canonical absolute URLs. non-trivial = >= 2 external documents and a document referenced from two places",
 		NumCases: c18NumCases,
 		Run:      c18Run,
 		Floors: func(env *core.Env) []string {
 			return []string{"entry.ExpandSpec", "entry.ExpandSchemaWithBasePath", "cache.fresh-library", "cache.fresh-wrapped", "cache.preloaded-subset", "cache.reused-library", "cache.reused-wrapped",
-				"cache.after-loader-fault", "cache-sets-observed", "many-documents-world"}
+				"cache.after-loader-fault", "cache-sets-observed", "many-documents-world", "id-scoped-world",
+				"with-root.ExpandSchema", "with-root.ExpandParameterWithRoot", "with-root.ExpandResponseWithRoot", "with-root.external-documents-needed"}
 		},
 		Assumptions: []string{"pre-loaded entries are generic JSON documents stored under their canonical URL, as the loader would have produced them"},
 	})
